@@ -4,7 +4,7 @@
    The tables op_rows / layer_rows / wrapper_rows / kernel_table and the flags gen_cfg, zero_is_zeros_like_data,
    seed_added_in_place ... are GENERATED from the source (Gen/GenDtype.v, translator lib/py2coq/gen_dtype.py): the
    statements quantified over them have the finite domain "the ops, layers and losses present in the source, with
-   every kind of configuration argument their signatures admit" and are decided by vm_compute, lifted with
+   every kind of configuration argument their signatures allow" and are decided by vm_compute, lifted with
    forallb_forall.  The statements about buffers (the grad theorems) are for all shapes, dtypes and sequences (induction).
 
    The shape half for broadcasting operations (unbroadcast returns exactly the operand's shape) is Props/C10_shapes.v
